@@ -163,6 +163,10 @@ CLASS_INVS = [
     {"hash": "h1", "amt": CLASS_A, "form": "truncated"},  # 10
     {"hash": "h2", "amt": CLASS_A, "hint": True},       # 11
     {"hash": "h1", "amt": CLASS_A, "payee": 2},         # 12 another payee
+    {"hash": "h1", "amt": CLASS_A, "hops": "OL"},       # 13 two-hop hint, local node LAST (a self route hint)
+    {"hash": "h1", "amt": CLASS_A, "hops": "LO"},       # 14 two-hop hint, local node first (not a self route hint)
+    {"hash": "h1", "amt": 0, "hops": "OLO"},            # 15 local node in the middle
+    {"hash": "h1", "amt": CLASS_A, "hops": "O"},        # 16 a hint that does not involve us
 ]
 
 def class_cases():
